@@ -11,6 +11,7 @@ import (
 	"github.com/google/osv-scalibr/detector"
 	"github.com/google/osv-scalibr/extractor"
 	scalibrfs "github.com/google/osv-scalibr/fs"
+	"github.com/google/osv-scalibr/plugin"
 	"pgregory.net/rapid"
 
 	"verifharness/internal/ev"
@@ -22,6 +23,10 @@ import (
 type findingSpec struct {
 	Ref   string `json:"ref"`
 	Extra string `json:"extra"`
+	// Alt gives the advisory another body: two findings with one reference and different
+	// bodies make the detection stage (and thus the scan) fail, with the extraction results
+	// still reported.
+	Alt bool `json:"alt,omitempty"`
 }
 
 type c08Case struct {
@@ -85,6 +90,7 @@ func genC08(t *rapid.T) c08Case {
 				fs = append(fs, findingSpec{
 					Ref:   rapid.SampledFrom([]string{"ADV-1", "ADV-2", "ADV-3"}).Draw(t, "ref"),
 					Extra: rapid.SampledFrom([]string{"", "x", "y"}).Draw(t, "extra"),
+					Alt:   rapid.IntRange(0, 7).Draw(t, "alt") == 0,
 				})
 			}
 			c.Detectors = append(c.Detectors, fs)
@@ -101,7 +107,7 @@ func mkDetectors(specs [][]findingSpec) []detector.Detector {
 			var r []*detector.Finding
 			for _, f := range fs {
 				r = append(r, &detector.Finding{
-					Adv:   &detector.Advisory{ID: &detector.AdvisoryID{Publisher: "T", Reference: f.Ref}, Title: "title " + f.Ref},
+					Adv:   &detector.Advisory{ID: &detector.AdvisoryID{Publisher: "T", Reference: f.Ref}, Title: map[bool]string{false: "title ", true: "other title "}[f.Alt] + f.Ref},
 					Extra: f.Extra,
 				})
 			}
@@ -213,6 +219,9 @@ func propC08(c c08Case) (ev.Outcome, error) {
 		}
 		if ties {
 			o.Classes = append(o.Classes, "packages_tie_on_name")
+		}
+		if first.Status == plugin.ScanStatusFailed {
+			o.Classes = append(o.Classes, "failed_scan_with_results")
 		}
 		if len(findingKeys(first)) >= 2 {
 			o.Classes = append(o.Classes, "two_or_more_findings")
